@@ -38,13 +38,13 @@ Proof. vm_compute. reflexivity. Qed.
 (* Part 3: the second half of C05 over the generator model, for EVERY description whose graph meets three
    decidable side conditions -- signal names determine their links (false only for node names that contain
    "_to_"), every interface has exactly one link in each direction, links join interfaces and routers only --:
-   every declared request / response link signal of the emitted top module has exactly one driver and exactly
+   every declared link signal of the emitted top module (request, response and, in narrow-wide networks, wide) has exactly one driver and exactly
    one reader, and its name is <driver>_to_<reader>_<net>.  (Proof: every link edge into a router sits in
    exactly one input slot of that router -- WireProofs.in_complete / in_unique, from one edge per
    (source, destination) in every built graph -- and by the port pairing its mirror in exactly one output slot.) *)
 From FV Require Import Side HwProofs WireProofs.
 Theorem C05_model_signals :
-  forall d g c ri n nt, nt = Req \/ nt = Rsp ->
+  forall d g c ri n nt, net_ok d nt ->
     build d = Ok g -> compile d g = Ok c -> emit c ri = Ok n ->
     names_sepb g nt = true -> single_attachb g c = true -> links_typedb g c = true ->
     forall l, In l (n_links n) -> fst l = net_type nt -> signal_ok n l.
@@ -59,5 +59,10 @@ Example C05_signals_nonvacuous :
     match (do g <- build d; do c <- compile d g; Ok (g, c)) with
     | Ok (g, c) => names_sepb g Req && names_sepb g Rsp && single_attachb g c && links_typedb g c
     | Err _ => false
-    end) [ex_star ID; ex_mesh XY; ex_tree SRC] = true.
-Proof. vm_compute. reflexivity. Qed.
+    end) [ex_star ID; ex_mesh XY; ex_tree SRC] = true /\
+  (* a narrow-wide network: the wide signals too *)
+  match (do g <- build (ex_nw ID); do c <- compile (ex_nw ID) g; Ok (g, c)) with
+  | Ok (g, c) => names_sepb g Req && names_sepb g Rsp && names_sepb g Wide && single_attachb g c && links_typedb g c
+  | Err _ => false
+  end = true.
+Proof. vm_compute. auto. Qed.
